@@ -37,9 +37,29 @@
 #include "oomd/Stats.h"
 #include "oomd/config/ConfigCompiler.h"
 #include "oomd/config/JsonConfigParser.h"
+#include "oomd/engine/PrekillHook.h"
 #include "oomd/util/Fs.h"
 
 using namespace Oomd;
+
+// a prekill hook that is still running when it is first asked: its invocation reports finished on the second poll, so every
+// kill it gates is deferred to the next tick (serialised victim + stack, resumeFromPrekillHook) - under the tick's faults
+namespace {
+class SlowHookInvocation : public Engine::PrekillHookInvocation {
+ public:
+  bool didFinish() override { return ++polls_ >= 2; }
+ private:
+  int polls_{0};
+};
+class SlowHook : public Engine::PrekillHook {
+ public:
+  static SlowHook* create() { return new SlowHook(); }
+  std::unique_ptr<Engine::PrekillHookInvocation> fire(const CgroupContext&, const ActionContext&) override {
+    return std::unique_ptr<Engine::PrekillHookInvocation>(new SlowHookInvocation());
+  }
+};
+bool slow_hook_registered = getPrekillHookRegistry().add("verif_slow_prekill_hook", SlowHook::create);
+} // namespace
 
 namespace {
 std::string g_root;      // scratch cgroup root ("" = interposition off)
